@@ -797,6 +797,12 @@ def run(tier: str, seed: int, replay: str | None = None) -> int:
 
         reqs = [request(c[0], c[5]) for c in cases]
         model = drv.batch(reqs)
+        # ---------------- the iterator protocol: the real reader driven call by call (pass_back, read_docstring);
+        # the bounded-exhaustive part first (small inputs), the random part after the other streams
+        from . import c02step
+        import sys as _sys
+        step_stats = c02step.run_streams(ford, drv, rng, tier, rep, d, MARKS, _sys.modules[__name__], "sweep")
+        stream_hist.update(step_stats.pop("streams"))
         (d / MISSING_H).unlink(missing_ok=True)
         on_disk = {}
         for k, ((lines, expected, feat, prog, stream, files, inc_cls), mo) in enumerate(zip(cases, model)):
@@ -891,9 +897,16 @@ def run(tier: str, seed: int, replay: str | None = None) -> int:
                 n_bad_corr += 1
                 rep.tie_broken(f"correspondence junk: model and implementation differ on {jl!r}",
                                {"stream": "junk", "lines": jl, "impl": im, "model": mo})
+        # ---------------- the iterator protocol, random part
+        st2 = c02step.run_streams(ford, drv, random.Random(seed * 7919 + 6), tier, rep, d, MARKS, _sys.modules[__name__], "random")
+        stream_hist.update(st2.pop("streams"))
+        for key, val in st2.items():
+            step_stats[key] += val
+        n_bad_corr += step_stats["disagreements"]
+        n_oracle_fail += step_stats["oracle_failures"]
     drv.close()
     rep.coverage.update(
-        evaluations=ev_micro + len(cases) + len(jcases) + 3 * prog_hist["trees_compared"],
+        evaluations=ev_micro + len(cases) + len(jcases) + 3 * prog_hist["trees_compared"] + step_stats["cases"],
         distinct_nontrivial=len(distinct),
         rule="layout cases are (lexical token sequences x random legal layout); non-trivial = has a continuation break "
              "(between tokens, inside a literal or inside a token), a ';' separator or an inline doc; distinct by digest "
@@ -902,9 +915,13 @@ def run(tier: str, seed: int, replay: str | None = None) -> int:
              "<= 2 (thorough: 3) units over SWEEP_UNITS x both quote kinds x every SWEEP_TAILS tail (plain and continued inside the literal), "
              "and every array constructor of <= 3 (thorough: 4) literals over c02prog.SWEEP_LITS as an initial value; include cases are "
              "(main file + include files, random layouts) and, bounded-exhaustive, every line of <= 3 (thorough: 4) statements over "
-             "INC_SWEEP_ITEMS x `;`/new line x INC_SWEEP_TAILS; a third of the program cases have a run of statements moved to an include file",
+             "INC_SWEEP_ITEMS x `;`/new line x INC_SWEEP_TAILS; a third of the program cases have a run of statements moved to an include file; "
+             "step cases drive the real reader object call by call (next / pass_back / sourceform.read_docstring): bounded-exhaustive, every line "
+             "of 2..3 statements over 3 (thorough: 5) of c02step.STEP_ITEMS (thorough also: 4 statements over 3) x `;`/new line x STEP_TAILS x every schedule of one atom "
+             "(take / read_docstring+take / take, hand back, take) per statement, and random layouts / include cases x random schedules",
         samples=samples,
-        traces_validated_against_impl=len(cases) + len(jcases) + ev_micro + 2 * len(decl_log),
+        traces_validated_against_impl=len(cases) + len(jcases) + ev_micro + 2 * len(decl_log) + step_stats["cases"],
+        iterator_protocol=step_stats,
         correspondence_disagreements=n_bad_corr + bad_micro,
         oracle_failures=n_oracle_fail,
         layout_feature_histogram=dict(sorted(feats_hist.items())),
